@@ -254,6 +254,11 @@ func checkC09(c *Check) {
 	// the discovered end-session endpoint is the one of this filter's own discovery document
 	discoveryCacheKeyRule(c, "C09.R3")
 	discoveryWheneverConfigured(c, "C09.R3")
+	// the configured end-session URI (and the explicit endpoints) are what was loaded: only the discovery loader fills them
+	configFieldsNotWritten(c, "C09.R3", "endpoints-as-configured", map[string]bool{
+		pkgCfgOIDC + ".LogoutConfig.RedirectUri": true, pkgCfgOIDC + ".OIDCConfig.AuthorizationUri": true, pkgCfgOIDC + ".OIDCConfig.TokenUri": true,
+		pkgCfgOIDC + ".OIDCConfig.Logout": true,
+	}, "the logout answer no longer redirects to the configured end-session URI (a cleared value is silently replaced by the discovered one)", P.Func(pkgAuthz, "loadWellKnownConfig"))
 	if answer != nil {
 		d := resolveCell(stripConv(answer.Common().Args[1]))
 		okLoc, okCookie, okName := false, false, false
@@ -609,4 +614,66 @@ func discoveryWheneverConfigured(c *Check, rule string) {
 	}
 	c.Obl(bad == "" && sawURI, rule, "discovery-whenever-configured", P.Pos(site.Pos()), "discovery runs under configuration_uri != \"\" and no other configuration-dependent condition",
 		"with a configuration URI set, discovery can be skipped: "+bad+" — settings only discovery provides (the end-session endpoint of the logout answer) stay empty")
+}
+
+// discoveryFillsEndpoints: once the discovery document was fetched, every successful return of the
+// discovery loader has assigned the authorization endpoint, the token endpoint and the JWKS URI of the
+// filter's fetcher from that document — whatever fetcher block the configuration already had. An endpoint
+// assigned on some paths only leaves the handler with an empty URI (keys fetched from "", every callback
+// fails) or with an endpoint of another provider.
+func discoveryFillsEndpoints(c *Check, rule string) {
+	P := c.P
+	lw := P.Func(pkgAuthz, "loadWellKnownConfig")
+	gw := P.Func(pkgOIDC, "GetWellKnownConfig")
+	if !c.Anchor(rule, "loadWellKnownConfig and GetWellKnownConfig", lw != nil && gw != nil) {
+		return
+	}
+	var fetch *ssa.Call
+	for _, ci := range callsToFn(lw, gw) {
+		fetch, _ = ci.(*ssa.Call)
+	}
+	if !c.Anchor(rule, "discovery fetch in loadWellKnownConfig", fetch != nil) {
+		return
+	}
+	for _, pair := range [][2]string{{"AuthorizationUri", "AuthorizationEndpoint"}, {"TokenUri", "TokenEndpoint"}, {"JwksUri", "JWKSURL"}} {
+		isFill := func(i ssa.Instruction) bool {
+			st, ok := i.(*ssa.Store)
+			if !ok {
+				return false
+			}
+			fa, isF := st.Addr.(*ssa.FieldAddr)
+			if !isF {
+				return false
+			}
+			f := fieldOf(fa.X.Type(), fa.Field)
+			if f == nil || f.Name() != pair[0] {
+				return false
+			}
+			for _, l := range Leaves(st.Val, leafOpts{noConcat: true}) {
+				base, lf, isL := fieldLoad(resolveCell(stripConv(l)))
+				if !isL || lf == nil || lf.Name() != pair[1] {
+					return false
+				}
+				b0 := resolveCell(stripConv(base))
+				if al, isA := b0.(*ssa.Alloc); isA {
+					// the document kept in a local variable: `doc, err := fetch(…)`
+					if sts := storesTo(al); len(sts) == 1 {
+						b0 = resolveCell(stripConv(sts[0].Val))
+					}
+				}
+				if bc, _, isC := asCall(b0); !isC || bc != fetch {
+					return false
+				}
+			}
+			// a store into a freshly built fetcher block counts only if that block is what the configuration ends up with
+			// on this path; the path condition below (must-pass on every path) takes care of the other paths
+			return true
+		}
+		hit := reachAvoiding(fetch, nil, func(i ssa.Instruction) bool {
+			r, ok := i.(*ssa.Return)
+			return ok && len(r.Results) > 0 && isNilConst(r.Results[len(r.Results)-1])
+		}, isFill)
+		c.Obl(hit == nil, rule, "discovery-fills/"+pair[0], P.Pos(fetch.Pos()), pair[0]+" ← document."+pair[1]+" on every successful path",
+			"a successful return of the discovery loader ("+posOf(P, hit)+") is reachable without "+pair[0]+" having been assigned from the document's "+pair[1])
+	}
 }
